@@ -6,6 +6,25 @@
 //! execute them symbolically next to the real code.
 #![no_std]
 #![allow(clippy::all)]
-#![allow(dead_code)]
+#![allow(dead_code, unused_variables, unused_mut, unused_parens)]
 
+pub mod aes;
+pub mod aria;
+pub mod belt;
+pub mod blowfish;
+pub mod camellia;
+pub mod cast5;
+pub mod cast6;
 pub mod des;
+pub mod gift;
+pub mod idea;
+pub mod kuznyechik;
+pub mod magma;
+pub mod rc2;
+pub mod rc5;
+pub mod serpent;
+pub mod sm4;
+pub mod speck;
+pub mod threefish;
+pub mod twofish;
+pub mod xtea;
